@@ -58,6 +58,7 @@ type Prog struct {
 	NotAnalysed []string
 	ls          *Locksets
 	lo          *LockOrder
+	vf          *VFlow
 }
 
 func loadEnv(cfg Config) []string {
